@@ -623,6 +623,27 @@ theorem idsL_mem_elemsL (l : List DN) {x} (h : x ∈ idsL l) : ∃ e ∈ elemsL 
       exact ⟨e, by simp [he], hx⟩
 end
 
+mutual
+theorem find?_mem_elems (t) (n : DN) {e} (h : find? t n = some e) : e ∈ elems n := by
+  match n with
+  | .text s => simp at h
+  | .el m bs =>
+    rw [find?_el] at h
+    split at h
+    · simp only [Option.some.injEq] at h; subst h; simp
+    · simp [findL?_mem_elemsL t bs h]
+theorem findL?_mem_elemsL (t) (l : List DN) {e} (h : findL? t l = some e) : e ∈ elemsL l := by
+  match l with
+  | [] => simp at h
+  | b :: bs =>
+    rw [findL?_cons] at h
+    split at h
+    · rename_i r hr
+      simp only [Option.some.injEq] at h; subst h
+      simp [find?_mem_elems t b hr]
+    · simp [findL?_mem_elemsL t bs h]
+end
+
 /-- two elements of a world with distinct uids that carry the same uid are the same element
     (same fields, same blocks) -/
 theorem elem_unique (l : List DN) (hn : (idsL l).Nodup) {e e' : Meta × List DN} (h : e ∈ elemsL l) (h' : e' ∈ elemsL l)
